@@ -13,7 +13,7 @@ import (
 //go:norace
 func pt(kind string, addr unsafe.Pointer, write bool) {
 	if vrt.Running() {
-		vrt.PointOp(&vrt.Op{Kind: kind, Obj: uintptr(addr), Write: write})
+		vrt.PointOp(&vrt.Op{Kind: kind, Obj: addr, Write: write})
 	}
 }
 
